@@ -1,0 +1,43 @@
+//! Verification hook (feature `verif-kani`, enabled only under `cargo kani`): loop-free Kani harnesses over the complete domain of
+//! `http::Version` (its five public constants are the only inhabitants a caller can construct).
+use super::HttpProtocol;
+
+fn any_version() -> ::http::Version {
+    let i: u8 = kani::any();
+    kani::assume(i < 5);
+    match i {
+        0 => ::http::Version::HTTP_09,
+        1 => ::http::Version::HTTP_10,
+        2 => ::http::Version::HTTP_11,
+        3 => ::http::Version::HTTP_2,
+        _ => ::http::Version::HTTP_3,
+    }
+}
+
+/// ver.total [C17] + proto.choice [C13]: `HttpProtocol::from` returns for every version, and chooses
+/// HTTP/2 exactly for `HTTP_2`.
+#[kani::proof]
+fn ver_total_proto_choice() {
+    let v = any_version();
+    let p = HttpProtocol::from(v);
+    assert!((p == HttpProtocol::Http2) == (v == ::http::Version::HTTP_2));
+}
+
+/// proto.multiplex [C13, C04]: only HTTP/2 multiplexes; `version()` is the protocol's own version.
+#[kani::proof]
+fn proto_multiplex_version() {
+    let v = any_version();
+    let p = HttpProtocol::from(v);
+    assert!(p.multiplex() == (p == HttpProtocol::Http2));
+    assert!((p.version() == ::http::Version::HTTP_2) == (p == HttpProtocol::Http2));
+    assert!(p.version() == ::http::Version::HTTP_2 || p.version() == ::http::Version::HTTP_11);
+}
+
+/// reachability guard (vacuity): the harness input really ranges over all five constants.
+#[kani::proof]
+fn ver_domain_cover() {
+    let v = any_version();
+    kani::cover!(v == ::http::Version::HTTP_09);
+    kani::cover!(v == ::http::Version::HTTP_3);
+    kani::cover!(v == ::http::Version::HTTP_2);
+}
